@@ -189,6 +189,7 @@ type sysCfg struct {
 	chunkMode int
 	callers   int
 	perCaller int
+	scribble  bool // body codec that encodes into the library's buffer + header codec that overwrites every free pool buffer before it encodes
 }
 
 func encoderOf(name string) rpc.Encoder {
@@ -202,6 +203,64 @@ func encoderOf(name string) rpc.Encoder {
 	}
 	return nil
 }
+
+// intoBuf is a body codec that encodes into the buffer the library hands it (as the pb, code and
+// msgpack codecs do), so the encoded value lives in a library buffer until the library has copied it
+type intoBuf struct{}
+
+func (intoBuf) Marshal(buf []byte, v interface{}) ([]byte, error) {
+	p, ok := v.(*[]byte)
+	if !ok {
+		return nil, fmt.Errorf("intoBuf: %T is not *[]byte", v)
+	}
+	if cap(buf) >= len(*p) {
+		buf = buf[:len(*p)]
+		copy(buf, *p)
+		return buf, nil
+	}
+	return append([]byte(nil), *p...), nil
+}
+func (intoBuf) Unmarshal(data []byte, v interface{}) error {
+	p, ok := v.(*[]byte)
+	if !ok {
+		return fmt.Errorf("intoBuf: %T is not *[]byte", v)
+	}
+	*p = append((*p)[:0], data...)
+	return nil
+}
+
+// scribbleEncoder is a header encoder that behaves as the one it wraps, except that its codec
+// overwrites every buffer the pools would hand out before it encodes: whatever the library still
+// needs must not be in a buffer it has already given back
+type scribbleEncoder struct{ inner rpc.Encoder }
+
+func (s scribbleEncoder) NewRequest() rpc.Request   { return s.inner.NewRequest() }
+func (s scribbleEncoder) NewResponse() rpc.Response { return s.inner.NewResponse() }
+func (s scribbleEncoder) NewCodec() rpc.Codec       { return scribbleCodec{s.inner.NewCodec()} }
+
+type scribbleCodec struct{ inner rpc.Codec }
+
+func scribblePools() {
+	for _, n := range []int{512, 65536} {
+		var got [][]byte
+		for j := 0; j < 6; j++ {
+			b := rpc.GetBuffer(n)
+			b = b[:cap(b)]
+			for i := range b {
+				b[i] = 0xEE
+			}
+			got = append(got, b)
+		}
+		for _, b := range got {
+			rpc.PutBuffer(b)
+		}
+	}
+}
+func (c scribbleCodec) Marshal(buf []byte, v interface{}) ([]byte, error) {
+	scribblePools()
+	return c.inner.Marshal(buf, v)
+}
+func (c scribbleCodec) Unmarshal(data []byte, v interface{}) error { return c.inner.Unmarshal(data, v) }
 
 func runSysOne(e *Env, cfg sysCfg, record bool) (cases []string) {
 	rng := e.Rng
@@ -252,10 +311,19 @@ func runSysOne(e *Env, cfg sysCfg, record bool) (cases []string) {
 	srv.RegisterName("Sys", &SysSvc{delay: delay, log: log})
 	done := make(chan struct{})
 	go func() {
-		srv.ServeCodec(rpc.NewServerCodec(&rpc.BYTESCodec{}, encoderOf(cfg.encoder), srvMsgs, cfg.srvDirect, cfg.bufSize))
+		if cfg.scribble {
+			srv.ServeCodec(rpc.NewServerCodec(intoBuf{}, scribbleEncoder{encoderOf(cfg.encoder)}, srvMsgs, cfg.srvDirect, cfg.bufSize))
+		} else {
+			srv.ServeCodec(rpc.NewServerCodec(&rpc.BYTESCodec{}, encoderOf(cfg.encoder), srvMsgs, cfg.srvDirect, cfg.bufSize))
+		}
 		close(done)
 	}()
-	conn := rpc.NewConnWithCodec(rpc.NewClientCodec(&rpc.BYTESCodec{}, encoderOf(cfg.encoder), cliMsgs, cfg.bufSize))
+	var conn *rpc.Conn
+	if cfg.scribble {
+		conn = rpc.NewConnWithCodec(rpc.NewClientCodec(intoBuf{}, scribbleEncoder{encoderOf(cfg.encoder)}, cliMsgs, cfg.bufSize))
+	} else {
+		conn = rpc.NewConnWithCodec(rpc.NewClientCodec(&rpc.BYTESCodec{}, encoderOf(cfg.encoder), cliMsgs, cfg.bufSize))
+	}
 	if cfg.cliPipe {
 		conn.SetPipelining(true)
 	}
@@ -410,6 +478,10 @@ func runSys(work, prop string) {
 		cfg := sysCfg{encoder: encs[i%4], cliPipe: i%5 == 1, cliDirect: i%3 == 1, srvPipe: i%4 == 2 || i%5 == 1, srvDirect: i%7 == 3,
 			bufSize: []int{0, 512, 65536, 1 << 20}[(i/4)%4], chunkMode: i % 4, callers: 1 + i%6, perCaller: 6 + i%5}
 		record := i%3 == 0
+		if !record && i%4 != 0 && i%8 >= 4 {
+			// (never with the default header path, which has no header codec of the user's)
+			cfg.scribble = true
+		}
 		if record {
 			cfg.callers, cfg.perCaller = 2, 5
 		}
